@@ -8,7 +8,8 @@ LEVEL = "exploration"
 RULE = ("seeded random logical datasets (1-3 keys x value dtype x mask kind x 8 reductions, hostile layouts and null "
         "placements) poured into numpy/pandas containers, a quarter of the single-key cases on the chunk-wise, pre-chunked "
         "Arrow or multi-thread route (scaled thresholds); every GroupBy result is compared label by label with a "
-        "pure-Python reference model. distinct = distinct case digests; non-trivial = at least 2 rows with a non-null "
+        "pure-Python reference model; plus one group of 65536 / 70000 rows (thorough: 32768 .. 1,100,000) interleaved with "
+        "two small ones, every reduction against NumPy on the group's selected rows. distinct = distinct case digests; non-trivial = at least 2 rows with a non-null "
         "key and at least one selected row")
 ASSUMPTIONS = [
     "reference model (gbv/model.py) is the specification; it is cross-checked against pandas at start-up",
@@ -31,11 +32,52 @@ def plan(tier):
     p.append(dict(shard=0, nshards=n, mode="bounds"))
     if tier == "thorough":
         p += [dict(shard=i, nshards=n, mode="bounds") for i in range(1, n)]
+    p.append(dict(shard=100, nshards=1, mode="prod"))
     return p
 
 
+BIG_SIZES = {"quick": [65536, 70000], "thorough": [32768, 65535, 65536, 65537, 70000, 200000, 1_100_000]}
+
+
+def check_big(case, ctx):
+    """one group of `size` rows interleaved with two small ones (counts / positions beyond 16-bit ranges), against NumPy on each
+    group's selected rows.  Small integer values: sums are exact in every dtype."""
+    import math
+
+    from groupby_lib import GroupBy
+
+    size, op, dtype = case["size"], case["op"], case["val"]["dtype"]
+    rng = np.random.Generator(np.random.PCG64(case["seed"]))
+    n = size + 600
+    keys = np.zeros(n, dtype="int64")
+    small = rng.choice(n, size=600, replace=False)
+    keys[small[:300]] = 1
+    keys[small[300:]] = 2
+    vals = rng.integers(-9, 10, size=n).astype(dtype)
+    if np.dtype(dtype).kind == "f":
+        vals[rng.random(n) < 0.01] = np.nan
+    mask = (rng.random(n) < 0.999) if case["masked"] else None
+    gb = lib.call(GroupBy, keys)
+    res = lib.call(gb.size, mask=mask) if op == "size" else lib.call(getattr(gb, op), vals, mask=mask)
+    sig = f"{op}|big|{np.dtype(dtype).kind}"
+    if lib.raised(res):
+        return [{"monitor": "c01.raised", "sig": sig, "detail": f"{op} on a group of {size} rows raised {res!r}"}]
+    sel_all = np.ones(n, bool) if mask is None else mask
+    for g in (0, 1, 2):
+        idx = np.flatnonzero((keys == g) & sel_all)
+        v = vals[idx].astype("float64")
+        nn = v[~np.isnan(v)]
+        exp = {"size": float(len(idx)), "count": float(len(nn)), "sum": float(nn.sum()), "mean": float(nn.mean()), "min": float(nn.min()), "max": float(nn.max()),
+               "first": float(nn[0]), "last": float(nn[-1])}[op]
+        got = float(res.loc[g])
+        if not (got == exp or (op == "mean" and math.isclose(got, exp, rel_tol=1e-12, abs_tol=1e-12))):
+            return [{"monitor": "c01.value", "sig": sig, "detail": f"{op}(dtype={dtype}, masked={case['masked']}) label {g} with {len(idx)} selected rows: library={got!r} numpy={exp!r}"}]
+    ctx.count("big_group_calls")
+    return []
+
+
 def required_counters(tier):
-    return ["allnull_group", "emptied_group", "unsorted_first_appearance", "multi_key", "observed_chunked_keys", "observed_multi_thread"]
+    return ["allnull_group", "emptied_group", "unsorted_first_appearance", "multi_key", "observed_chunked_keys", "observed_multi_thread", "big_group_calls"]
 
 
 def gen_case(rng, dtypes):
@@ -147,6 +189,18 @@ def _check(case, ctx):
 
 
 def run(ctx):
+    if ctx.shard == 100:
+        j = 0
+        for size in BIG_SIZES[ctx.tier]:
+            for op in ["size", "count", "sum", "mean", "min", "max", "first", "last"]:
+                for dtype in (["float64", "int64"] if ctx.tier == "quick" else ["float64", "int64", "int16", "float32"]):
+                    if (op == "size" and dtype != "float64") or (dtype == "float32" and size > 200000):
+                        continue
+                    j += 1
+                    case = {"big": True, "size": size, "n": size + 600, "op": op, "masked": bool(j % 2), "seed": int(ctx.seed) * 1000 + j, "noshrink": True,
+                            "keys": [], "val": {"dtype": dtype, "vals": []}, "mask": None, "params": {}}
+                    ctx.run_case(case, check_big, lambda c: [f"big|{c['op']}|{c['size']}"], lambda c: True)
+        return
     err = model.selfcheck()
     if err:
         raise RuntimeError(err)
